@@ -317,9 +317,77 @@ def family_tasks(tier, seed):
     return tasks
 
 
+def work_copies(task):
+    """Two objects, one made from the other by copy(): a public state change of either one never changes what the other
+    reports (each keeps answering for ITS current inputs) - link attributes, node weights and adjacency of the original
+    are changed after the copy was taken and queried, then the other way round."""
+    _, seed = task
+    out = {"eval": 0, "fail": [], "skip": [], "cases": [], "samples": [], "name": "copy-independence", "t": 0.0}
+    t0 = time.process_time()
+    try:
+        import numpy as np
+        from pyunicorn.core import Network
+        with S.Silence():
+            rng = np.random.RandomState(4242 + seed)
+            for directed in (False, True):
+                for rep_ in range(3):
+                    n = 6 + rep_
+                    A = (rng.random_sample((n, n)) < 0.45).astype(int)
+                    np.fill_diagonal(A, 0)
+                    if not directed:
+                        A = np.triu(A, 1); A = A + A.T                      # noqa: E702
+                    if not A.any():
+                        continue
+                    W1 = rng.uniform(0.5, 3.0, (n, n)); W2 = rng.uniform(0.5, 3.0, (n, n))     # noqa: E702
+                    if not directed:
+                        W1 = np.triu(W1, 1) + np.triu(W1, 1).T; W2 = np.triu(W2, 1) + np.triu(W2, 1).T      # noqa: E702
+                    w1, w2 = rng.uniform(0.5, 2.0, n), rng.uniform(0.5, 2.0, n)
+                    wit = {"directed": directed, "A": A.tolist(), "seed": seed}
+
+                    def fresh(Wm, wv):
+                        t = Network(adjacency=A.copy(), directed=directed, node_weights=wv.copy(), silence_level=SL_)
+                        t.set_link_attribute("w", Wm.copy())
+                        return t
+
+                    def obs(x):
+                        return [np.asarray(x.link_attribute("w"), dtype=float), np.asarray(x.degree("w"), dtype=float),
+                                np.asarray(x.path_lengths("w"), dtype=float), np.asarray(x.nsi_degree(), dtype=float),
+                                float(x.total_node_weight), int(x.n_links)]
+
+                    def same(a, b):
+                        return all(np.allclose(u, v, rtol=1e-9, atol=1e-12, equal_nan=True) for u, v in zip(a, b))
+                    net = fresh(W1, w1)
+                    cp = net.copy()
+                    if "w" not in (cp.graph.es.attributes() if hasattr(cp.graph.es, "attributes") else []):
+                        cp.set_link_attribute("w", W1.copy())       # (copy() documents adjacency / weights; give it the attribute)
+                    for first, second, label in ((net, cp, "original-changed"), (cp, net, "copy-changed")):
+                        ref_second = obs(second)
+                        first.set_link_attribute("w", W2.copy())
+                        first.node_weights = w2.copy()
+                        out["eval"] += 1
+                        if not same(obs(second), ref_second):
+                            out["fail"].append(("Network.copy/independent-after-" + label, wit,
+                                                "a link-attribute / node-weight change of one object changed what the other reports"))
+                        if not same(obs(first), obs(fresh(W2, w2))):
+                            out["fail"].append(("Network.copy/changed-object-follows-" + label, wit,
+                                                "the changed object does not report what a new network with its inputs reports"))
+                        first.set_link_attribute("w", W1.copy())
+                        first.node_weights = w1.copy()
+                    out["cases"].append(("copy:%s:%d" % (directed, n), True))
+    except Exception as e:                                          # noqa
+        out["skip"].append(f"copy-independence: HARNESS ERROR {type(e).__name__}: {e} :: " + traceback.format_exc()[-600:])
+    out["t"] = time.process_time() - t0
+    return out
+
+
+SL_ = 3
+
+
 def work(task):
     if task[0] == "family":
         return work_family(task)
+    if task[0] == "copies":
+        return work_copies(task)
     name, seed, hists, quarantine_idx = task
     out = {"eval": 0, "fail": [], "skip": [], "cases": [], "samples": [], "name": name, "t": 0.0}
     t0 = time.process_time()
@@ -415,7 +483,8 @@ def main():
                     qidx = list(range(len(spec.quarantine))) if (c == 0 and spec.quarantine) else None
                     tasks.append((spec.name, args.seed, part, qidx))
             tasks += family_tasks(args.tier, args.seed)
-            tasks.sort(key=lambda t: -(len(t[4]) // 3 if t[0] == "family" else len(t[2])))
+            tasks.append(("copies", args.seed))
+            tasks.sort(key=lambda t: -(len(t[4]) // 3 if t[0] == "family" else 1 if t[0] == "copies" else len(t[2])))
         if len(tasks) == 1:
             results = [work(tasks[0])]
         else:
